@@ -533,13 +533,15 @@ def select_shard(args):
                           {"kind": part, "S": [s.name for s in S], "family": fname, "L": logic_case(L)})
         for fname, S in fams:
             Sl = list(S)
-            one(fname, Sl, (lambda S=S: LG.get_closer_logic(S, L)), "closer")
+            # a temporary list per call (as a caller looping over sub-lists would build): results
+            # must not depend on the identity of the collection
+            one(fname, Sl, (lambda S=S: LG.get_closer_logic(list(S), L)), "closer")
         # the two documented special answers (QF_BOOL -> QF_UF, BOOL -> LRA) are members of SMTLIB2_LOGICS
         # above the target with nothing supported strictly below them, which is all the statement asks
         one("logics.SMTLIB2_LOGICS", list(LG.SMTLIB2_LOGICS), (lambda: LG.get_closer_smtlib_logic(L)), "closer_smtlib")
         one("logics.PYSMT_LOGICS", list(LG.PYSMT_LOGICS), (lambda: LG.get_closer_pysmt_logic(L)), "closer_pysmt")
         for S in subsets[maxk_named if cls == "named" else maxk_detected]:
-            one("subset", S, (lambda S=S: LG.get_closer_logic(S, L)), "closer")
+            one("subset", S, (lambda S=S: LG.get_closer_logic(list(S), L)), "closer")
         if idx == 0:
             res.sample({"part": "a-select", "target": _lname(L), "supported_logics_above": [s.name for s in up][:6]},
                        limit=1)
@@ -1099,6 +1101,12 @@ def edge_profile(env, wide=True):
     for qn, Q in (("forall", m.ForAll), ("exists", m.Exists)):
         for nm, vs in binders:
             p.op("%s_%s" % (qn, nm), [BOOL], BOOL, (lambda Q, vs: lambda m, f: Q(vs, f))(Q, vs))
+    # a quantifier inside a Boolean term nested in a theory term below an atom
+    sfsym = [sy for sy in [m.get_symbol("sf")]][0]
+    p.op("q_in_ite_under_eq", [BOOL], BOOL,
+         lambda m, f: m.Equals(m.Ite(m.ForAll([x], m.Or(f, m.LE(x, y))), m.Int(1), m.Int(0)), y))
+    p.op("q_in_uf_arg_under_eq", [BOOL], BOOL,
+         lambda m, f: m.Equals(m.Function(sfsym, [m.Exists([u], m.And(f, m.BVULT(u, m.BV(1, 2))))]), st))
     return p
 
 
